@@ -157,6 +157,26 @@ def main():
             else:
                 ck.nontrivial(src)
 
+    # ---------------- stream 3b: CPPManifest::stringify itself against the extracted state machine (proved = 6.10.3.2 on well-formed tokens) -----------
+    L = b['lib']
+    stool = vlib.harness(b, 'scan_tool', ['scan_tool.cxx'], libs=(), extra=[os.path.join(L, 'libcppParser.a'), os.path.join(L, 'libdtoolutil.a'), os.path.join(L, 'libdtoolbase.a')])
+    texts = []
+    pieces = ['a', '1', ' ', '+', '"s"', '"it\'s"', "'c'", "'\\''", "'\\\\'", '"q\\"r"', "'\"'", '"a\\\\b"', '"\\n"', '"', "'", '\\', '""', "''", ',', '(', ')']
+    for _ in range(ck.scale(1500, 30000)):
+        texts.append(''.join(rng.choice(pieces) for _ in range(rng.randrange(0, 6))).encode('latin-1'))
+    texts.insert(0, b'')
+    pr = subprocess.run([stool, os.path.join(wd, 'line.txt')], input=''.join('q %s\n' % t.hex() for t in texts if t) , text=True, stdout=subprocess.PIPE, stderr=subprocess.PIPE)
+    impl_s = pr.stdout.splitlines()
+    model_s = vlib.run_model('C08', 'stringify', [t.hex() for t in texts if t])
+    for t, a, m_ in zip([t for t in texts if t], impl_s, model_s):
+        ck.count()
+        ck.dist('stringify')
+        if a != m_:
+            ck.violation('corr_C08_stringify', 'CPPManifest::stringify(%r) = %r, model %r' % (t, bytes.fromhex(a), bytes.fromhex(m_)),
+                         {'kind': 'correspondence', 'cmd': 'scan_tool: q <hex>', 'input_hex': t.hex(), 'implementation': a, 'model': m_}, nofail=True)
+        else:
+            ck.nontrivial(('q', t))
+
     # ---------------- stream 4: recorded departures from the standard (witness programs) -------------------------------------------------
     for key, src in WITNESSES:
         ck.count()
